@@ -914,6 +914,18 @@ private:
     {
       if (opcode == WsOpcode::TEXT)
       {
+        // RFC 6455 §5.6/§8.1: a text message must be valid UTF-8 (checked on the
+        // reassembled message, like the server does); otherwise fail the
+        // connection with 1007 and do not deliver it.
+        WebSocketFrame check;
+        check.payload = std::move(payload);
+        if (!check.isValidUtf8())
+        {
+          sendClose(1007, "Invalid UTF-8");
+          return;
+        }
+        payload = std::move(check.payload);
+
         if (_onTextMessage)
         {
           std::string text(payload.begin(), payload.end());
